@@ -1,11 +1,11 @@
 package mon
 
 import (
-	"net/http"
 	"context"
 	"errors"
 	"fmt"
 	"io"
+	"net/http"
 	"sort"
 	"strings"
 
